@@ -10,6 +10,8 @@ CONSTANTS
   WithFaults = FALSE
   FailKinds = {"none"}
   TmoKinds = {"short"}
+  Disabled = {}
+  UseBad = FALSE
   WithLifecycle = FALSE
   InitDevice <- CoreInit
 VIEW view
